@@ -238,6 +238,8 @@ func (ex *Exec) lenOf(st *State, v Val, t types.Type) *sym.Term {
 		return st.Simplify(sym.App(sym.Int, "len", x))
 	case *Agg:
 		return sym.ConstI(int64(len(x.Elems)))
+	case *Choice:
+		return st.Simplify(sym.Ite(x.Cond, ex.lenOf(st, x.A, t), ex.lenOf(st, x.B, t)))
 	case *Ptr:
 		if pt, ok := t.Underlying().(*types.Pointer); ok {
 			if at, ok := pt.Elem().Underlying().(*types.Array); ok {
